@@ -52,6 +52,7 @@ def check(ctx, report):
     report.rule('C03.R9', 'SSL 2.0 record: the number of bytes consumed follows the RECORD-LENGTH of the specification for every header value')
     ssl2_parse_header(ctx, report, ctx.model.cls('SslRecord'), RULE='C03.R9')
     report.floor('C03.R9', 1000, 'tabulated SSL 2.0 header values')
+    library_framing(ctx, report)
     entry_points(ctx, report)
     ownership(ctx, report)
     return_lengths(ctx, report)
@@ -810,3 +811,42 @@ def declared_windows(ctx, report):
                            'buffer that ends early is accepted as a shorter structure (n smaller than the declared size)' % key)
     if n < 1:
         report.error('C03.R8: no length bounded window slice found (anchor moved)')
+
+
+# ---- R10: messages framed by a library decoder ---------------------------------------------------------------------------
+
+def library_framing(ctx, report):
+    """len(load(input).dump()) is the number of bytes the message occupies only for the definite length form: for a BER
+    value of indefinite length the library returns header and contents without the end-of-contents octets, so two bytes of
+    the message would be left in the stream.  Every function that hands the input to a library ``load`` has to refuse the
+    indefinite form first (second octet 0x80) - which the protocol that uses it forbids anyway (RFC 4511 5.1)."""
+    report.rule('C03.R10', 'messages framed by an ASN.1 decoder: the indefinite length form is refused before the decoder sees the input')
+    n = 0
+    for f in ctx.model.functions():
+        if f.module.external or not f.module.relpath.startswith('cryptoparser/tls/ldap.py'):
+            continue
+        loads = [c for c in ast.walk(f.node) if isinstance(c, ast.Call) and isinstance(c.func, ast.Attribute) and c.func.attr == 'load' and
+                 c.args and 'parsable' in ast.unparse(c.args[0])]
+        for ld in loads:
+            n += 1
+            report.count('C03.R10')
+            report.touch(f)
+            ok = False
+            for i in ast.walk(f.node):
+                if isinstance(i, ast.If) and i.lineno < ld.lineno and any(isinstance(x, ast.Raise) for x in i.body):
+                    t = i.test
+                    consts = set()
+                    for c in ast.walk(t):
+                        if isinstance(c, ast.Constant) and isinstance(c.value, int):
+                            consts.add(c.value)
+                        elif isinstance(c, ast.Constant) and isinstance(c.value, bytes) and len(c.value) == 1:
+                            consts.add(c.value[0])
+                    if 0x80 in consts and 1 in consts and 'parsable' in ast.unparse(t) and \
+                            any(isinstance(c, ast.Compare) and any(isinstance(o, ast.Eq) for o in c.ops) for c in ast.walk(t)):
+                        ok = True       # the second octet (index 1, or the slice [1:2]) compared with 0x80
+            if not ok:
+                report.add('C03.R10', f.construct + '@indefinite-length',
+                           'the input goes to the library decoder without the indefinite length form (30 80 ... 00 00) having been refused: the reported '
+                           'length then leaves the two end-of-contents octets of the message in the stream')
+    if n == 0:
+        report.error('C03.R10: no library load() call found in cryptoparser/tls/ldap.py (anchor moved)')
